@@ -67,9 +67,11 @@ struct C20 : Prop {
 			std::vector<size_t> withf; for (size_t i = 0; i < w.boards.size(); i++) if (w.boards[i].present && !w.boards[i].features.empty()) withf.push_back(i);
 			if (withf.size() >= 2 && r.chance(300)) {
 				size_t ia = withf[r.below(withf.size() - 1)];
-				std::vector<size_t> later; for (size_t i : withf) if (i > ia && !w.boards[i].is_iface() && !w.boards[i].addr.empty() && w.boards[i].addr != w.boards[ia].addr) later.push_back(i);
+				std::vector<size_t> later; for (size_t i : withf) if (i > ia && !w.boards[i].addr.empty() && w.boards[i].addr != w.boards[ia].addr) later.push_back(i);      // (leaf boards and interfaces with everything beneath them)
 				// (not beneath the earlier board, and not its ancestor)
 				std::vector<size_t> ok; for (size_t i : later) { const auto &a = w.boards[ia].addr, &b = w.boards[i].addr; bool anc = b.size() < a.size() && std::equal(b.begin(), b.end(), a.begin()); if (!anc) ok.push_back(i); }
+				// (an interface only if everything beneath it also comes later in the configuration: what was set before the loss was set rightly)
+				{ std::vector<size_t> ok2; for (size_t i : ok) { bool fine = true; if (w.boards[i].is_iface()) for (size_t q = 0; q < w.boards.size(); q++) { const auto &h = w.boards[i].addr, &c = w.boards[q].addr; if (c.size() > h.size() && std::equal(h.begin(), h.end(), c.begin()) && q <= ia) fine = false; } if (fine) ok2.push_back(i); } ok = ok2; }
 				if (!ok.empty() && !(w.boards[ia].addr.empty() && false)) {
 					size_t ib = ok[r.below(ok.size())];
 					J tl = J::obj(); tl.set("on_feature_set_to", pc::jaddr(w.boards[ia].addr)); tl.set("lost", pc::jaddr(w.boards[ib].addr)); plan.set("lost_during_features", tl);
